@@ -117,6 +117,7 @@ inline GenericAddressEventCount aec_in(const json& j) {
     if (j.contains("ae_transport_flags"))
         a.ae_transport_flags = static_cast<QueryResponseTransportFlagsMask>(vh::u64_from_nat(j["ae_transport_flags"]));
     a.ip_address = vh::bytes_from_json(j["ip_address"]);
+    if (j.contains("ae_count_in")) a.ae_count = vh::u64_from_nat(j["ae_count_in"]);   // whatever the caller left there
     return a;
 }
 inline json aec_out(const GenericAddressEventCount& a) {
